@@ -123,8 +123,26 @@ fn main() {
             let prop = args[2].clone();
             let tier = args.get(3).cloned().unwrap_or_else(|| "quick".into());
             let seed: u64 = args.get(4).and_then(|s| s.parse().ok()).unwrap_or(0);
-            let rep = standins::run(&prop, &tier, seed);
-            println!("{}", rep.to_json());
+            // expected panics (refusals) are caught inside the stand-ins; keep stderr quiet but remember
+            // the last message in case a panic escapes (= the real crate panicked on a valid input)
+            static LAST: std::sync::Mutex<String> = std::sync::Mutex::new(String::new());
+            panic::set_hook(Box::new(|info| {
+                if let Ok(mut l) = LAST.lock() {
+                    *l = format!("{}", info);
+                }
+            }));
+            let p2 = prop.clone();
+            match panic::catch_unwind(move || standins::run(&p2, &tier, seed)) {
+                Ok(rep) => println!("{}", rep.to_json()),
+                Err(_) => {
+                    let msg = LAST.lock().map(|l| l.clone()).unwrap_or_default();
+                    let mut rep = standins::Report::new(&prop, "stand-in aborted by an unexpected panic");
+                    rep.cases = 1;
+                    rep.distinct = 1;
+                    rep.failures.push(("the real crate panicked on an input the property covers".to_string(), msg));
+                    println!("{}", rep.to_json());
+                }
+            }
         }
         _ => {
             eprintln!("unknown subcommand");
